@@ -85,7 +85,7 @@ received.  `target o` is the subscriber an output is addressed to. -/
 
 /-- For every state satisfying the invariant whose subscribed connections are
 alive, and every decoded PUBLISH `p` (QoS <= 2, identifier present unless QoS 0)
-on a valid topic name without empty and '$'-led levels (findings B3/B4 are
+on a valid topic name without empty levels, not beginning with '$' (finding B3 is
 outside): `onPublish` succeeds and its outputs are - up to the order in which
 Go iterates its maps - exactly one `delivery` per entry (path, subscriber,
 granted QoS) of the subscription trie whose path matches the name under MQTT
@@ -284,6 +284,24 @@ example :
   have ha : abs exState.topics.sroot =
       [([[97], [35]], 1000, 1), ([[97], [43]], 1, 0), ([[97], [98]], 1, 2), ([[35]], 2, 1)] := by decide
   rw [ha]
+  decide
+
+/-- B4, repaired - on `exState`: "a/$b" is a good valid name (a '$' below the
+first level is an ordinary character); a QoS 1 PUBLISH on it reaches callback
+1000 via "a/#", connection 1 via "a/+" (not via "a/b") and connection 2 via
+"#"; a connection that subscribes to "a/$b" itself is granted and receives it
+too.  A PUBLISH on "$SYS" (outside the property's quantifier) is turned away by
+the store and reaches nobody. -/
+example :
+    good [97, 47, 36, 98] = true ∧ validName [97, 47, 36, 98] = true ∧
+    (onPublish exState ⟨{ qos := 1, topic := [97, 47, 36, 98], pktid := 5, payload := [7] }, false⟩).2.2.1 =
+      [.call 1000 { qos := 1, topic := [97, 47, 36, 98], pktid := 5, payload := [7] },
+       .send 1 (.publish { qos := 0, topic := [97, 47, 36, 98], pktid := 0, payload := [7] }),
+       .send 2 (.publish { qos := 1, topic := [97, 47, 36, 98], pktid := 5, payload := [7] })] ∧
+    (let b1 := (packet exState 2 (.subscribe 2 [([97, 47, 36, 98], 1)])).1
+     (packet exState 2 (.subscribe 2 [([97, 47, 36, 98], 1)])).2 = [.send 2 (.suback 2 [1])] ∧
+     (onPublish b1 ⟨{ qos := 0, topic := [97, 47, 36, 98], payload := [7] }, false⟩).2.2.1.length = 4) ∧
+    (onPublish exState ⟨{ qos := 0, topic := [36, 83, 89, 83], payload := [7] }, false⟩).2.2.1 = [] := by
   decide
 
 end Mqtt.Properties.C01
